@@ -53,6 +53,7 @@ def run(ctx):
         ctx.guard("parent-not-false" + tag, parent_not_false, ctx, crate, crs, tag)
         ctx.guard("soft-precondition" + tag, soft_precondition, ctx, crate, crs, tag)
         ctx.guard("cached-implies-ok" + tag, cached_implies_ok, ctx, crate, crs, tag)
+        ctx.guard("recursion-census" + tag, recursion_census, ctx, crate, crs, tag)
         ctx.guard("render-terminates" + tag, render_terminates, ctx, crate, crs, tag)
         ctx.guard("panic-census" + tag, panic_census, ctx, crate, crs, tag, cfg)
         ctx.guard("unreachable-arms" + tag, unreachable_arms, ctx, crate, crs, tag)
@@ -62,6 +63,11 @@ def run(ctx):
         ctx.guard("assertions" + tag, c01.assertions, ctx, crate, crs, tag)
         ctx.guard("conflict-signal" + tag, c02.conflict_signal, ctx, crate, crs, tag)
         ctx.guard("unsolvable-at-root" + tag, c02.unsolvable_at_root, ctx, crate, crs, tag)
+        # ... and the trail discipline those `expect("bug: ...")` / debug assertions rest on: implied decisions at the current
+        # level, backjump to the learnt clause's level, undo in step with the map (seed C04-16: two harmless-looking edits make the
+        # trail non-monotonic in level, undo_until stops early, "already decided" panics)
+        import core
+        ctx.guard("core" + tag, core.verdict, ctx, crate, crs, tag)      # see rules/core.py
         # id-indexed Mapping (watch lists, learnt_why, snapshot tables): growth covers the index about to be used
         import c19
         ctx.guard("grow-to-fit" + tag, c19.grow_to_fit, ctx, crate, crs, c19.env(), tag)
@@ -616,3 +622,46 @@ def panic_census(ctx, crate, crs, tag, cfg):
     ctx.floor(R, "reachable explicit panic sites", len(found), 45 if "debug_assertions" in crate.cfg else 35)
     if tag == "":
         ctx.notes.append("panic sites by class (cfgA): %s" % classes)
+
+
+# ------------------------------------------------------------------------------------------------
+RECURSIVE_REVIEWED = {
+    # function (root of its closures) : why the recursion is bounded
+    "resolvo::solver::Solver::analyze_unsolvable_clause": "recursion over learnt_why: a learnt clause's antecedents were learnt strictly earlier (ids decrease)",
+}
+
+
+def recursion_census(ctx, crate, crs, tag):
+    """Functions on the solve / rendering paths that can reach themselves through crate-local calls (closures count for the function
+    they are written in).  Recursion over a graph that may contain cycles (the conflict graph does: a=1 -> a 2, a=2 -> a 1) does not
+    terminate without a visited set, and no test has a cyclic graph at that spot (seed C04-17); like a new explicit panic site a new
+    recursive function is reported for review, the reviewed ones carry their termination argument."""
+    R = "recursion-census" + tag
+    seen, by_key = reachable_bodies(crate)
+    root_of = {}
+    for b in crate.bodies:
+        root_of[b.key] = strip_generics(b.root) if b.root else b.key
+    edges = {}
+    for b in crate.bodies:
+        if b.crate.is_test or b.key not in seen:
+            continue
+        src = root_of[b.key]
+        for i, t in b.calls():
+            f = t.get("f")
+            if not f:
+                continue
+            for kk in callee_keys(f):
+                if kk in by_key and all(x.kind != "Closure" for x in by_key[kk]):
+                    edges.setdefault(src, set()).add(kk)
+    # direct recursion only (a function, or a closure written in it, calls the function itself): calls through trait methods of the
+    # provider / interner are resolved too coarsely for a precise cycle search, and every seeded or reviewed instance is direct
+    rec = {f0 for f0, outs in edges.items() if f0 in outs}
+    # derived impls (Debug / Clone / serde) recurse structurally over finite data and are not on these paths in practice
+    rec = {f for f in rec if not any(x in f for x in (" as std::fmt::Debug>", " as std::clone::Clone>", "_serde::", " as std::cmp::", " as std::hash::"))}
+    for f in sorted(rec):
+        why = RECURSIVE_REVIEWED.get(f)
+        ctx.ob(R, f, "recursive-function-is-reviewed", why is not None, (by_key[f][0].loc() if f in by_key else ""),
+               ("bounded: " + why) if why else
+               "this function can call itself (directly or through other crate functions) on the solve / rendering path and is not in the reviewed table: "
+               "recursion over the conflict graph or the clause database needs a visited set to terminate")
+    ctx.count("recursive_functions" + tag, len(rec))
